@@ -292,6 +292,11 @@ def known_findings():
     return json.loads(p.read_text())
 
 
+def known_for(pid):
+    """recorded (not repaired) findings of one property, from known_findings.json"""
+    return [k for k in known_findings().get("findings", []) if k.get("property") == pid]
+
+
 def case_hash(obj):
     return hashlib.sha256(json.dumps(obj, sort_keys=True, default=str).encode()).hexdigest()[:16]
 
